@@ -35,6 +35,7 @@ where
           if f.call(x.clone()) {
             sctl_next.sink_next(x);
           } else {
+            sctl_next.upstream_abort_observe(&serial);
             sctl_next.sink_complete(&serial)
           }
         },
